@@ -153,16 +153,15 @@ def run(ctx):
         # under allow_unknown_ops
         gated = any(t["flag"] == "NO_UNKNOWN_OPS" and okret and ap.dominates(t["clear_edge"], okret[0]) for t in fr.flag_tests(ap))
         det = {"returns": rets, "pushes": pushes_, "guard pushes": len(guards), "checkpoints": len(cps), "gated by allow_unknown_ops": gated}
-        ok = rets == ["Ok(expected_cost)"] and len(pushes_) == 1 and "Allocator::nil(" in pushes_[0] and not guards and not cps and gated
-        # and expected_cost there is the declared cost (uint_atom of the first argument)
-        ec = [l for l in ap.local_by_name("expected_cost")]
-        first_def = None
-        for l in ec:
-            for s in ap.defs(l):
-                if ap.dominates(s[0], pb):
-                    first_def = show(ap.expr_rvalue(ap.def_rvalue(s)))
-        det["declared cost"] = (first_def or "")[:120]
-        ok = ok and first_def is not None and "uint_atom" in first_def and "first(" in first_def
+        # the value returned there is the declared cost: uint_atom of the first argument (deep form, no local names)
+        deep_rets = []
+        for x in okret:
+            for st in ap.stmts(x):
+                if st.get("d") and st["d"]["l"] == 0:
+                    deep_rets.append(show(ap.denamed(ap.expr_rvalue(st["rv"]))))
+        det["declared cost"] = [r[:140] for r in deep_rets]
+        ok = len(deep_rets) == 1 and deep_rets[0].startswith("Ok(") and "uint_atom" in deep_rets[0] and "first(" in deep_rets[0] \
+            and len(pushes_) == 1 and "Allocator::nil(" in pushes_[0] and not guards and not cps and gated
     ck.ob("R08c", RP + "apply_op|softfork not understood", ok,
           "an unintelligible softfork call (allowed unknown ops) pushes nil, returns exactly the declared cost, enters no guard, takes no checkpoint",
           site=ap.where(sw2[0]) if sw2 else ap.where(0), detail=det)
